@@ -843,7 +843,7 @@ def programs(draw, max_depth=3, modes=("node",), errors=True, ctxs=False, limits
         return lit_int(draw)
 
     focus = draw(st.sampled_from(["any", "any", "catch", "catch_all", "op", "cond", "seq", "map", "map2", "task",
-                                  "callv", "flat_map", "nout", "let", "getitem", "dexplicit", "set", "ptwin"]))
+                                  "callv", "flat_map", "nout", "let", "getitem", "dexplicit", "set", "ptwin", "refail"]))
     if focus == "ptwin" and permitted("map"):
         # two sibling uses of partial tasks that differ ONLY in the value a partial binds (same
         # body, same remaining arguments): distinct task values, so distinct calls
@@ -871,11 +871,30 @@ def programs(draw, max_depth=3, modes=("node",), errors=True, ctxs=False, limits
         if shape == "tasks":
             return ["list", [["task", pair[0], {}, {}], ["task", pair[1], {}, {}]]]
         return ["list", pair]
+    if focus == "refail" and errors and permitted("catch") and permitted("seq") and permitted("let"):
+        # one failing expression reached twice under the same parent job: first handled by a catch,
+        # then, after it has already failed, as an element nested in a container (of a later seq
+        # item, a cond branch, or a task argument): the container must fail too
+        ek = draw(st.sampled_from(ERRK))
+        fail = draw(st.sampled_from([["task", ["throw", ek, "e1"], {}, {}], ["throw", ek, "e2"],
+                                     ["task", ["list", [lit_int(draw), ["raise_now", ek, "now"]]], {}, {}]]))
+        box = draw(st.sampled_from(["list", "tuple", "dict", "nt", "dc"]))
+        s_ = ["var", "s"]
+        held = {"list": ["list", [lit_int(draw), s_]], "tuple": ["tuple", [s_, lit_int(draw)]], "dict": ["dict", [["k", s_]]],
+                "nt": ["nt", lit_int(draw), s_], "dc": ["dc", s_, lit_int(draw)]}[box]
+        use2 = draw(st.sampled_from([["task", ["var", "a"], {"a": held}, {}], held, ["apply", "pair", [held]]]))
+        caught = ["catch", s_, ["Exception"], lit_int(draw), {}]
+        form = draw(st.sampled_from(["seq", "seq", "cond"]))
+        if form == "seq":
+            inner = ["seq", [caught, use2]]
+        else:
+            inner = ["list", [caught, ["cond", [["task", lit_int(draw), {}, {}], use2, use2]]]]
+        return ["let", "s", fail, inner]
     if focus == "dexplicit" and "dnode" in modes:
         core = ["task", ["list", [["var", "d"], ["var", "d2"], gen({"d", "d2"}, max_depth - 1, "any")]], {},
                 {"t": "dnode", "d": gen(set(), max_depth - 1, "int")}]
         return core if draw(st.booleans()) else ["task", core, {}, {}]
-    if focus == "any" or focus in ("dexplicit", "ptwin") or not permitted(focus):
+    if focus == "any" or focus in ("dexplicit", "ptwin", "refail") or not permitted(focus):
         return gen(set(), max_depth, "any")
     core = make(focus, set(), max_depth)
     wrap = draw(st.sampled_from(["none", "task", "list"]))
